@@ -539,10 +539,11 @@ type Monitor struct {
 }
 
 type GhostDecl struct {
-	Name  string
-	Field bool
-	Type  string // for fields: the Go type the field hangs off (informational)
-	Sort  string // SMT sort, or int/bool/string
+	Name    string
+	Field   bool
+	Type    string // for fields: the Go type the field hangs off (informational)
+	Sort    string // SMT sort, or int/bool/string
+	Default string // value at keys that denote objects not allocated yet ("" = unconstrained)
 }
 
 type SpecFn struct {
@@ -787,7 +788,16 @@ func (sp *Specs) parseFile(path, pkgName string, lines []string) error {
 					ty = strings.TrimSuffix(nm[i+1:], ")")
 					nm = nm[:i]
 				}
-				sp.Ghosts[nm] = &GhostDecl{Name: nm, Field: true, Type: ty, Sort: strings.Join(parts[2:], " ")}
+				srt := parts[2:]
+				def := ""
+				for k, w := range srt {
+					if w == "default" && k+1 < len(srt) {
+						def = srt[k+1]
+						srt = srt[:k]
+						break
+					}
+				}
+				sp.Ghosts[nm] = &GhostDecl{Name: nm, Field: true, Type: ty, Sort: strings.Join(srt, " "), Default: def}
 			default:
 				return fail(ln, fmt.Errorf("want: ghost var|field"))
 			}
